@@ -29,7 +29,22 @@ func canonExpr(v ssa.Value, k map[ssa.Value]bool, depth int) string {
 	case *ssa.Const:
 		return x.Value.ExactString()
 	case *ssa.Parameter:
+		if a, ok := ssau.ParamSubst[x]; ok {
+			return canonExpr(a, k, depth+1)
+		}
 		return x.Name()
+	case *ssa.Extract:
+		// a component of the result of a one-block helper: expand the helper with its parameters bound
+		if cl, ok := x.Tuple.(*ssa.Call); ok {
+			if h := cl.Call.StaticCallee(); h != nil && len(h.Blocks) == 1 && h.Pkg != nil && strings.HasPrefix(h.Pkg.Pkg.Path(), "github.com/elastos/Elastos.ELA") {
+				if ret, ok := h.Blocks[0].Instrs[len(h.Blocks[0].Instrs)-1].(*ssa.Return); ok && x.Index < len(ret.Results) {
+					out := ""
+					ssau.WithParamSubst(cl, func() { out = canonExpr(ret.Results[x.Index], k, depth+1) })
+					return out
+				}
+			}
+		}
+		return fmt.Sprintf("extract#%d(%s)", x.Index, canonExpr(x.Tuple, k, depth+1))
 	case *ssa.Convert:
 		return "conv<" + x.Type().String() + ">(" + canonExpr(x.X, k, depth+1) + ")"
 	case *ssa.ChangeType:
